@@ -786,6 +786,14 @@ func (e *Env) evalCall(x *Expr) TV {
 			r = v.Ref
 		}
 		return TV{Scalar{App("ptr_extent", e.fv.l.idxSort(), r)}, types.Typ[types.Int]}
+	case "allocated":
+		a := arg(0)
+		switch v := a.V.(type) {
+		case Scalar:
+			return TV{Scalar{Lt(RootID(v.T), e.st.wm)}, nil}
+		case SliceV:
+			return TV{Scalar{Lt(RootID(v.Arr), e.st.wm)}, nil}
+		}
 	case "isnil":
 		a := arg(0)
 		switch v := a.V.(type) {
@@ -924,7 +932,17 @@ func (e *Env) evalCall(x *Expr) TV {
 	}
 	ne.fr = nil
 	ne.depth = e.depth + 1
-	return ne.eval(m.Body)
+	res := ne.eval(m.Body)
+	if res.T == nil && m.Result != "" {
+		if t, err := e.fv.P.ResolveType(m.Pkg, m.Result); err == nil {
+			if sc, ok := res.V.(Scalar); ok {
+				if cs := e.fv.l.comps(t); len(cs) == 1 && cs[0].sort == sc.T.Sort {
+					res.T = t
+				}
+			}
+		}
+	}
+	return res
 }
 
 func bvBitLen(x *Term, w int) *Term {
@@ -947,7 +965,63 @@ func (e *Env) evalLocs(xs []*Expr) []modLoc {
 	return out
 }
 
+// evalEach evaluates modifies-each clauses; the condition is a closure over the current (pre-)state.
+func (e *Env) evalEach(mes []ModEach) []modLoc {
+	var out []modLoc
+	for _, me := range mes {
+		me := me
+		t, err := e.fv.P.ResolveType(e.pkg, me.Type)
+		if err != nil {
+			e.fv.fail("%s: %v", me.Pos, err)
+		}
+		st, named, isPtr := e.structOf(t)
+		if st == nil || !isPtr {
+			e.fv.fail("%s: modifies-each variable must be a pointer to a struct", me.Pos)
+		}
+		owner := typeKey(named)
+		var fids []int
+		for _, fname := range me.Fields {
+			found := false
+			for i := 0; i < st.NumFields(); i++ {
+				if st.Field(i).Name() == fname {
+					fids = append(fids, fieldID(st, owner, i))
+					found = true
+				}
+			}
+			if !found {
+				e.fv.fail("%s: no field %q in %s", me.Pos, fname, named)
+			}
+		}
+		snap := *e
+		snap.vars = make(map[string]TV, len(e.vars))
+		for k, v := range e.vars {
+			snap.vars[k] = v
+		}
+		cond := func(obj *Term) *Term {
+			ne := snap.child()
+			ne.vars[me.Var] = TV{Scalar{obj}, t}
+			r := ne.evalBool(me.Cond)
+			e.fv.side = nil
+			return r
+		}
+		out = append(out, modLoc{kind: "each", fids: fids, cond: cond, typ: t})
+	}
+	return out
+}
+
 func (e *Env) evalLoc(x *Expr) []modLoc {
+	if x.Kind == EBinary && x.Op == "if" {
+		g := e.evalBool(x.Args[1])
+		e.fv.side = nil
+		locs := e.evalLoc(x.Args[0])
+		for i := range locs {
+			if locs[i].kind != "cell" {
+				e.fv.fail("%s: guarded modifies is supported for field locations only", x.Pos)
+			}
+			locs[i].guard = g
+		}
+		return locs
+	}
 	switch x.Kind {
 	case ECall:
 		if x.Name == "mem" || x.Name == "memcap" {
@@ -1027,7 +1101,14 @@ func (fv *FV) havoc(st *State, locs []modLoc, tag string) {
 	for _, m := range locs {
 		switch m.kind {
 		case "cell":
-			fv.havocTyped(st, m.typ, m.addr, tag)
+			if m.guard != nil {
+				oldv := st.heap.load(m.typ, m.addr)
+				fv.havocTyped(st, m.typ, m.addr, tag)
+				newv := st.heap.load(m.typ, m.addr)
+				st.heap.store(m.typ, m.addr, fv.iteValue(m.guard, newv, oldv))
+			} else {
+				fv.havocTyped(st, m.typ, m.addr, tag)
+			}
 		case "gcell":
 			st.heap.writeCell(m.sort, m.addr, fv.fresh(tag+"_g", m.sort))
 		case "fields":
@@ -1049,6 +1130,8 @@ func (fv *FV) havoc(st *State, locs []modLoc, tag string) {
 				st.assume(q)
 				st.heap.setElemRow(c.sort, k, m.addr, newRow)
 			}
+		case "each":
+			fv.havocEach(st, m, tag)
 		case "ghost":
 			st.ghost[m.name] = fv.fresh(tag+"_"+m.name, m.sort)
 		case "ghostidx":
@@ -1090,5 +1173,124 @@ func (fv *FV) havocTyped(st *State, t types.Type, addr *Term, tag string) {
 		v := fv.freshValue(tag, t)
 		st.heap.store(t, addr, v)
 		fv.assumeType(st, v, t)
+	}
+}
+
+
+// ---------------------------------------------------------------- ghost assignments
+
+// applyGhostDefs performs the contract's ghost assignments on st. env is the post-state environment
+// (old = pre-state of the call / function entry).
+func (fv *FV) applyGhostDefs(env *Env, st *State, defs []GhostDef) {
+	for _, gd := range defs {
+		fv.applyGhostDef(env, st, gd)
+	}
+}
+
+func (fv *FV) ghostCur(st *State, name string, s *Sort) *Term {
+	if t, ok := st.ghost[name]; ok {
+		return t
+	}
+	return Var("G_"+sanitize(name)+"_0", s)
+}
+
+func (fv *FV) applyGhostDef(env *Env, st *State, gd GhostDef) {
+	ne := env.child()
+	ne.st = st
+	bound := map[string]*Term{}
+	for _, v := range gd.Vars {
+		t, err := fv.P.ResolveType(env.pkg, v.Type)
+		var sort *Sort
+		if err == nil {
+			if cs := fv.l.comps(t); len(cs) == 1 {
+				sort = cs[0].sort
+			}
+		}
+		if sort == nil {
+			sort = ne.ghostSort(v.Type)
+		}
+		fv.nfresh++
+		bv := BoundVar(fmt.Sprintf("%s!g%d", sanitize(v.Name), fv.nfresh), sort)
+		bound[v.Name] = bv
+		var tt types.Type
+		if err == nil {
+			tt = t
+		}
+		ne.vars[v.Name] = TV{Scalar{bv}, tt}
+	}
+	// ghost field target
+	if gd.Target.Kind == EField {
+		locs := ne.evalLoc(gd.Target)
+		if len(locs) != 1 || locs[0].kind != "gcell" {
+			fv.fail("%s: ghostdef target %s is not a ghost field", gd.Pos, gd.Target)
+		}
+		rhs := ne.eval(gd.Rhs).V.(Scalar).T
+		fv.flushSide(st)
+		st.heap.writeCell(locs[0].sort, locs[0].addr, rhs)
+		return
+	}
+	// ghost map path: name[i1][i2]...
+	var path []*Expr
+	cur := gd.Target
+	for cur.Kind == EIndex {
+		path = append([]*Expr{cur.Args[1]}, path...)
+		cur = cur.Args[0]
+	}
+	if cur.Kind != EIdent {
+		fv.fail("%s: bad ghostdef target %s", gd.Pos, gd.Target)
+	}
+	g, ok := fv.P.Specs.GhostV[cur.Name]
+	if !ok {
+		fv.fail("%s: ghostdef target %s is not a ghost variable", gd.Pos, cur.Name)
+	}
+	gs := ne.ghostSort(g.Type)
+	old := fv.ghostCur(st, g.Name, gs)
+	rhs := ne.eval(gd.Rhs).V.(Scalar).T
+	fv.flushSide(st)
+	var build func(curArr *Term, depth int) *Term
+	build = func(curArr *Term, depth int) *Term {
+		if depth == len(path) {
+			return rhs
+		}
+		pe := path[depth]
+		if pe.Kind == EIdent {
+			if bv, isBound := bound[pe.Name]; isBound {
+				// pointwise definition over every key: fresh array with a defining axiom
+				if depth != len(path)-1 {
+					fv.fail("%s: a bound index must be the last index of a ghostdef target", gd.Pos)
+				}
+				na := fv.fresh("gd_"+g.Name, curArr.Sort)
+				q := Forall([]*Term{bv}, Eq(Select(na, bv), rhs))
+				if q.Op == "forall" {
+					q.Pats = [][]*Term{{Select(na, bv)}}
+				}
+				st.assume(q)
+				return na
+			}
+		}
+		idx := ne.eval(pe).V.(Scalar).T
+		if idx.Sort != curArr.Sort.Idx {
+			fv.fail("%s: ghostdef index sort %s, want %s", gd.Pos, idx.Sort, curArr.Sort.Idx)
+		}
+		return Store(curArr, idx, build(Select(curArr, idx), depth+1))
+	}
+	st.ghost[g.Name] = build(old, 0)
+}
+
+
+// havocEach replaces the cell arrays by fresh ones that agree with the old ones outside the target set.
+func (fv *FV) havocEach(st *State, m modLoc, tag string) {
+	fv.nfresh++
+	a := BoundVar(fmt.Sprintf("a!ea%d", fv.nfresh), RefSort)
+	tgt := eachTarget(m, a)
+	for _, s := range []*Sort{IntSort, BoolSort, RefSort} {
+		key, cur := st.heap.cellArr(s)
+		nw := fv.fresh(tag+"_each_"+sortKey(s), cur.Sort)
+		q := Forall([]*Term{a}, Implies(Not(tgt), Eq(Select(nw, a), Select(cur, a))))
+		if q.Op == "forall" {
+			q.Pats = [][]*Term{{Select(nw, a)}}
+		}
+		st.assume(q)
+		st.heap.arrays[key] = nw
 	}
 }
